@@ -491,6 +491,11 @@ func (s *recordingSpan) End(options ...trace.SpanEndOption) {
 		s.mu.Unlock()
 		s.executionTracerTaskEnd()
 		s.mu.Lock()
+		// The lock was released: a concurrent End may have ended the span.
+		if !s.isRecording() {
+			s.mu.Unlock()
+			return
+		}
 	}
 
 	// Setting endTime to non-zero marks the span as ended and not recording.
